@@ -63,6 +63,26 @@ def strategy(tier):
 
 
 def exhaustive(tier):
+    yield from _exhaustive_floats()
+    # required keys of every odd kind (falsy ones, None, tuples, braces), missing at the root and one level down
+    for key in (None, 0, "", False, (), "{x}", "a.b", 2.5, b""):
+        d = {"t": "dict", "entries": [{"key": key, "opt": False, "spec": {"t": "int"}},
+                                      {"key": "other", "opt": True, "spec": {"t": "int"}}], "relaxed": False}
+        yield {"spec": d, "value": {}}
+        yield {"spec": d, "value": {"other": "x"}}
+        yield {"spec": {"t": "list", "form": "typed", "elem": d}, "value": [{}, {key: 1}, {key: "bad"}]}
+        yield {"spec": {"t": "dict", "entries": [{"key": "rows", "opt": False, "spec": d}], "relaxed": False},
+               "value": {"rows": {}}}
+    # missing elements at every index of a short exact list
+    for n in (1, 2, 3):
+        el = {"t": "list", "form": "exact", "elems": [{"t": "int"}] * n}
+        for k in range(n):
+            yield {"spec": el, "value": [1] * k}
+            yield {"spec": {"t": "dict", "entries": [{"key": None, "opt": False, "spec": el}], "relaxed": False},
+                   "value": {None: [1] * k}}
+
+
+def _exhaustive_floats():
     """float nodes with a fixed value, a precision and a bound inside the value's rounding bucket, against
     numbers that equal the value at that precision: alone, as a list element and as a dict member"""
     for p in (1, 2, 3):
